@@ -47,7 +47,9 @@ def einsum(equation, *operands):
         shifts.append(shift)
 
     result = ops.log(ops.einsum(exp_operands, equation))
-    return sum(shifts + [result])
+    # Start from the log term: -inf plus finite shifts stays -inf, and a partial
+    # sum of shifts can never overflow to +inf before a -inf arrives.
+    return sum([result] + shifts)
 
 
 tensordot = Tensordot(einsum)
